@@ -363,6 +363,9 @@ carquet_status_t carquet_rle_encoder_put(
         enc->bitpack_total++;
         enc->repeat_count--;
     }
+    if (enc->bitpack_count == 8) {
+        flush_bitpack(enc);  /* the top-up completed the group */
+    }
     if (enc->repeat_count >= 8) {
         /* Flush as RLE */
         flush_bitpack(enc);  /* Flush any pending bit-pack */
@@ -406,6 +409,9 @@ carquet_status_t carquet_rle_encoder_flush(carquet_rle_encoder_t* enc) {
         enc->bitpack_buffer[enc->bitpack_count++] = enc->prev_value;
         enc->bitpack_total++;
         enc->repeat_count--;
+    }
+    if (enc->bitpack_count == 8) {
+        flush_bitpack(enc);  /* the top-up completed the group */
     }
     if (enc->repeat_count >= 8) {
         flush_bitpack(enc);
